@@ -52,33 +52,10 @@ def tlc_with_cfg(module, cfg_text, name, **kw):
 
 def scripts_from_transitions(r, cb=False, prefix="s", max_len=400):
     """Covering walks over TLC's emitted transitions -> replay scripts."""
-    trs = r.printed("TR")
-    inits = r.printed("IN")
-    adj = graphs.build(trs)
-    scripts = []
-    ntr = sum(len(v) for v in adj.values())
-    for i, ini in enumerate(inits):
-        walks = graphs.covering_walks(ini["s"], adj, max_len=max_len)
-        for j, w in enumerate(walks):
-            scripts.append({"id": "%s-%d-%d" % (prefix, i, j), "cf": ini["cf"], "cb": cb, "steps": w})
-    # self-check: the walks really traverse every emitted transition
-    nxt = {}
-    for f, lst in adj.items():
-        for (k, a, t) in lst:
-            nxt[(f, k)] = t
-    covered = set()
-    start = {("%s-%d" % (prefix, i)): ini["s"] for i, ini in enumerate(inits)}
-    for sc in scripts:
-        cur = start[sc["id"].rsplit("-", 1)[0]]
-        for a in sc["steps"]:
-            k = json.dumps(a, sort_keys=True)
-            if (cur, k) not in nxt:
-                raise vlib.FrameworkError("walk leaves the state graph")
-            covered.add((cur, k))
-            cur = nxt[(cur, k)]
-    if len(covered) != ntr:
-        raise vlib.FrameworkError("covering walks traverse %d of %d transitions" % (len(covered), ntr))
-    return scripts, ntr
+    ws, stats = vlib.walks(r, max_len=max_len)
+    scripts = [{"id": "%s-%d-%d" % (prefix, w["init"], j), "cf": w["cf"], "cb": cb, "steps": w["acts"]}
+               for j, w in enumerate(ws)]
+    return scripts, stats["transitions"]
 
 
 def replay(binp, scripts, sd, name, full=False, timeout=600):
